@@ -14,6 +14,9 @@ def generate(rng, tier):
         probes = sorted(set(pts + [p + 1 for p in pts if p < MAXC]))
         st += ["buildu", "table", "alphabet", "edges", "finals", "prune", "table", "nextall %d %s" % (len(probes), " ".join(map(str, probes))),
                "acceptsall 3 %s" % ("3 %d %d %d" % tuple(rng.sample(pts, 3)))]
+        if rng.random() < 0.35:
+            # pruning an automaton whose initial state is no longer state 0 (after minimize renumbered it)
+            st += ["minimize", "prune", "acceptsall 3 %s" % ("3 %d %d %d" % tuple(rng.sample(pts, 3))), "finals"]
         cases.append(" ; ".join(st))
     info = {"rule": "automata from builder histories (1-8 states + planted copies, unreachable components incl. ones with smaller ids than reachable states, dense colliding non-default rows, with / without defaults); observed: every cell of the compiled table, alphabet, edges, finals, the pruned automaton (kept set, renumbering) and its table; non-trivial = at least 3 states",
             "distribution": {"cases": n}}
